@@ -163,6 +163,9 @@ def gen_program(rnd, pid, size=None, roots=1, generic=True, args=True, ensure_co
             raw = fresh_name(path)
             g = {"mods": path, "raw": raw, "name": strip_raw(raw), **loc(), "opts": rand_opts(rnd, 0.4),
                  "has_opts": True}
+            if rnd.random() < 0.35:
+                # #[divan::bench(name = "...", types = [...])]: the instances live below the display name
+                g["name"] = rnd.choice(["Generic ", "renamed_", "zz "]) + strip_raw(raw)
             types = rnd.choice([None, [0, 1], [2, 0], [1], [3, 2, 0], []])
             consts = rnd.choice([None, [3, 1, 2], [10, 9, 100], [-1, 5], [7], []])
             if types is None and consts is None:
